@@ -239,3 +239,59 @@ func VerifH_C12_genericCancel() {
 	}
 	verifCover("done")
 }
+
+// VerifH_C12_putBlocked: the result consumer is gone and the result buffers (capacity 1) are full,
+// so workers are parked handing over their results; then the scan is cancelled: completion must
+// still be signalled and the error stream must end.
+func VerifH_C12_putBlocked() {
+	verifNow()
+	K, W := verifParam("K", 6), verifParam("W", 2)
+	sc := &c08Scanner{cancelAt: -1}
+	var reqs []*Request
+	for i := 0; i < K; i++ {
+		sc.outcome = append(sc.outcome, 1)
+		reqs = append(reqs, &Request{DstPort: uint16(i)})
+	}
+	ctx, cancel := context.WithCancel(context.Background())
+	defer cancel()
+	eng := NewScanEngine(&c08Gen{reqs: reqs}, sc, NewResultChan(ctx, 1), WithScanWorkerCount(W))
+	done, errc := eng.Start(ctx, &Range{})
+	go func() {
+		time.Sleep(time.Millisecond) // by now every worker is parked: nobody reads results
+		cancel()
+	}()
+	<-done
+	for range errc {
+	}
+	verifAssert(verifNow() < int64(time.Second), "after cancellation the engine kept waiting for a result consumer")
+	verifCover("done")
+}
+
+// VerifH_C12_mergeErr: the real mergeErrChan with errors queued and in flight when the context
+// is cancelled: no send on a closed channel, the merged stream ends.
+func VerifH_C12_mergeErr() {
+	ctx, cancel := context.WithCancel(context.Background())
+	c1, c2 := make(chan error, 2), make(chan error, 2)
+	n1, n2 := int(verifConcretize(uint64(ndU8("n1")%3))), int(verifConcretize(uint64(ndU8("n2")%3)))
+	for i := 0; i < n1; i++ {
+		c1 <- errC08Req
+	}
+	for i := 0; i < n2; i++ {
+		c2 <- errC08Req
+	}
+	if ndBool("closeInputs") {
+		close(c1)
+		close(c2)
+	}
+	out := mergeErrChan(ctx, c1, c2)
+	go func() {
+		verifYield()
+		cancel()
+	}()
+	n := 0
+	for range out {
+		n++
+	}
+	verifAssert(n <= n1+n2, "merged stream invented an error")
+	verifCover("done")
+}
